@@ -245,3 +245,275 @@ Proof.
   - intros x Hx OUT. rewrite FST in OUT. rewrite NB by exact Hx. apply WO. lia.
 Qed.
 End Store.
+
+(* ================= load of at most three variables = Heap.load_object 0 ================= *)
+Definition is_ext (b : binding) : bool := match bchi b with Ext => true | _ => false end.
+Lemma is_ext_true b : is_ext b = true <-> bchi b = Ext.
+Proof. unfold is_ext. destruct (bchi b); split; intros; congruence. Qed.
+
+Lemma not_ext b : bchi b <> Ext -> is_ext b = false.
+Proof. unfold is_ext. destruct (bchi b); congruence. Qed.
+Lemma pos_reg_ne n i n' i' : (n, i) <> (n', i') -> pos_reg n i <> pos_reg n' i'.
+Proof. intros NE E. apply pos_reg_inj in E as [-> ->]. now apply NE. Qed.
+
+(* one step of the release-mode register specification, uniformly in the kind of the variable *)
+Lemma lv_step w x rest E b ff rg r :
+  lv_spec w (x :: rest) E b ff rg r =
+  lv_spec w rest E b (ff - 1)
+    (fun r => if N.eqb r (pos_reg Snd (E + List.length rest)) then Some (w (b + field_offset Snd (ff - 1)))
+              else if negb (is_ext x) && N.eqb r (pos_reg Fst (E + List.length rest)) then Some (w (b + field_offset Fst (ff - 1)))
+              else rg r) r.
+Proof.
+  cbn [lv_spec]. apply lv_spec_pointwise. unfold is_ext.
+  assert (NE : pos_reg Fst (E + List.length rest) <> pos_reg Snd (E + List.length rest)) by (apply pos_reg_ne; congruence).
+  destruct (bchi x); cbn [negb andb]; repeat match goal with |- context [N.eqb ?a ?b] => destruct (N.eqb_spec a b) end; congruence.
+Qed.
+(* the same for the share mode: registers and heap *)
+Lemma lvs_step_fst x rest E b ff rg h r :
+  fst (lvs_spec (x :: rest) E b ff rg h) r =
+  fst (lvs_spec rest E b (ff - 1)
+    (fun r => if N.eqb r (pos_reg Snd (E + List.length rest)) then Some (words h (b + field_offset Snd (ff - 1)))
+              else if negb (is_ext x) && N.eqb r (pos_reg Fst (E + List.length rest)) then Some (words h (b + field_offset Fst (ff - 1)))
+              else rg r)
+    (if is_ext x then h else a_share (words h (b + field_offset Fst (ff - 1))) 1 h)) r.
+Proof.
+  cbn [lvs_spec]. unfold is_ext.
+  assert (NE : pos_reg Fst (E + List.length rest) <> pos_reg Snd (E + List.length rest)) by (apply pos_reg_ne; congruence).
+  destruct (bchi x); cbn [negb andb]; apply lvs_spec_pointwise; unfold rupd;
+    repeat match goal with |- context [N.eqb ?a ?b] => destruct (N.eqb_spec a b) end; congruence.
+Qed.
+Lemma lvs_step_snd x rest E b ff rg h :
+  snd (lvs_spec (x :: rest) E b ff rg h) =
+  snd (lvs_spec rest E b (ff - 1) rg (if is_ext x then h else a_share (words h (b + field_offset Fst (ff - 1))) 1 h)).
+Proof. cbn [lvs_spec]. unfold is_ext. destruct (bchi x); apply lvs_spec_heap_indep. Qed.
+Lemma lvs_ok_step x rest b ff h :
+  lvs_ok (x :: rest) b ff h <->
+  (is_ext x = false -> words h (b + field_offset Fst (ff - 1)) = 0 \/ valid_addr (words h (b + field_offset Fst (ff - 1)))) /\
+  lvs_ok rest b (ff - 1) (if is_ext x then h else a_share (words h (b + field_offset Fst (ff - 1))) 1 h).
+Proof. cbn [lvs_ok]. unfold is_ext. destruct (bchi x); intuition congruence. Qed.
+
+Lemma a_share_slots p n h b off : (p = 0 \/ is_blk p) -> is_blk b -> 0 < off < 64 -> words (a_share p n h) (b + off) = words h (b + off).
+Proof. intros Hp Hb Ho. apply a_share_nonblk; [exact Hp|now apply not_blk_off]. Qed.
+
+(* two shares commute (on blocks) *)
+Lemma share_comm a b n m s : st_eqB (Heap.share a n (Heap.share b m s)) (Heap.share b m (Heap.share a n s)).
+Proof.
+  unfold Heap.share. destruct (Z.eqb_spec a 0), (Z.eqb_spec b 0); try apply st_eqB_refl.
+  repeat split; auto. intros x _. cbn [Heap.m]. unfold Heap.set_hdr, Heap.upd.
+  destruct (Z.eqb_spec x a) as [EA|NA], (Z.eqb_spec x b) as [EB|NB]; subst; cbn [Heap.hdr Heap.ps];
+    rewrite ?Z.eqb_refl; cbn [Heap.hdr Heap.ps];
+    repeat match goal with |- context [?u =? ?v] => destruct (Z.eqb_spec u v); try congruence end; cbn [Heap.hdr Heap.ps]; f_equal; lia.
+Qed.
+
+Ltac regdec :=
+  repeat match goal with
+         | |- context [N.eqb ?a ?b] =>
+             destruct (N.eqb_spec a b);
+             [try (exfalso; unfold rtp, pos_reg in *; cbn [tnum_n] in *; change RESERVED with 4%N in *; lia)
+             |try (exfalso; unfold rtp, pos_reg in *; cbn [tnum_n] in *; change RESERVED with 4%N in *; lia)]
+         end.
+
+(* reference counts that do not overflow under up to k increments *)
+Definition sbound (k : Z) (h : aheap) : Prop := forall x, is_blk x -> min_int <= words h x /\ words h x + k <= max_int.
+Lemma sbound_share k h v : sbound (k + 1) h -> 0 <= k -> (v = 0 \/ is_blk v) -> sbound k (a_share v 1 h).
+Proof.
+  intros B Hk Hv x Hx. unfold a_share. destruct (Z.eqb_spec v 0); [specialize (B x Hx); lia|].
+  destruct Hv as [?|Hv]; [contradiction|]. cbn [words]. unfold upd. destruct (Z.eqb_spec x v) as [->|NE]; [|specialize (B x Hx); lia].
+  specialize (B v Hv). rewrite wrap_small by (unfold min_int, max_int, two63 in *; lia). lia.
+Qed.
+Lemma share3_rev a b c d :
+  (a = 0 \/ is_blk a) -> (b = 0 \/ is_blk b) -> (c = 0 \/ is_blk c) ->
+  st_eqB (Heap.share a 1 (Heap.share b 1 (Heap.share c 1 d))) (Heap.share c 1 (Heap.share b 1 (Heap.share a 1 d))).
+Proof.
+  intros Ha Hb Hc.
+  eapply st_eqB_trans; [apply share_st_eqB; [apply share_comm|exact Ha]|].
+  eapply st_eqB_trans; [apply share_comm|].
+  apply share_st_eqB; [|exact Hc]. apply share_comm.
+Qed.
+(* the three slots shared in the order of the code (last slot first) = share_list in slot order *)
+Lemma share_chain F h v0 v1 v2 :
+  (v0 = 0 \/ is_blk v0) -> (v1 = 0 \/ is_blk v1) -> (v2 = 0 \/ is_blk v2) -> sbound 3 h ->
+  st_eqB (habs F (a_share v0 1 (a_share v1 1 (a_share v2 1 h)))) (Heap.share_list [v0; v1; v2] (habs F h)).
+Proof.
+  intros H0 H1 H2 B3.
+  pose proof (sbound_share 2 h v2 B3 ltac:(lia) H2) as B2.
+  pose proof (sbound_share 1 _ v1 B2 ltac:(lia) H1) as B1.
+  unfold Heap.share_list. cbn [fold_left].
+  eapply st_eqB_trans; [apply habs_share; [exact H0|]|].
+  { intros N0. destruct H0 as [?|H0]; [contradiction|]. specialize (B1 v0 H0). lia. }
+  eapply st_eqB_trans; [apply share_st_eqB; [|exact H0]; apply habs_share; [exact H1|]|].
+  { intros N0. destruct H1 as [?|H1]; [contradiction|]. specialize (B2 v1 H1). lia. }
+  eapply st_eqB_trans; [apply share_st_eqB; [|exact H0]; apply share_st_eqB; [|exact H1]; apply habs_share; [exact H2|]|].
+  { intros N0. destruct H2 as [?|H2]; [contradiction|]. specialize (B3 v2 H2). lia. }
+  now apply share3_rev.
+Qed.
+Lemma share_if x v h : (is_ext x = true -> v = 0) -> (if is_ext x then h else a_share v 1 h) = a_share v 1 h.
+Proof. destruct (is_ext x); [|reflexivity]. intros H. rewrite (H eq_refl). reflexivity. Qed.
+
+Section Load.
+Variable im : image.
+
+Theorem rv_load_full pos to_load existing lc cs lc' s p F :
+  r_load to_load existing lc = Ok (cs, lc') -> to_load <> [] -> (List.length to_load <= 3)%nat ->
+  placed im pos cs ->
+  let E := List.length existing in let n := List.length to_load in
+  rget s (rtp (2 * N.of_nat E)) = Some p -> is_blk p ->
+  (exists h0, rget s HEAP = Some h0) -> (exists f0, rget s FREE = Some f0) ->
+  (hword s p <> 0 ->
+     (hword s (p + 16) = 0 \/ is_blk (hword s (p + 16))) /\ (hword s (p + 32) = 0 \/ is_blk (hword s (p + 32))) /\
+     (hword s (p + 48) = 0 \/ is_blk (hword s (p + 48))) /\
+     (forall j, (j < 3 - n)%nat -> hword s (p + 16 * Z.of_nat (j + 1)) = 0) /\
+     (forall i b, nth_error to_load i = Some b -> bchi b = Ext -> hword s (slot_addr p n i) = 0)) ->
+  (forall x, is_blk x -> min_int + 1 <= hword s x /\ hword s x + 3 <= max_int) ->
+  exists s', star im pos s (padd pos (List.length cs)) s' /\
+    st_eqB (abs_heap F s') (Heap.load_object 0 p (abs_heap F s)) /\
+    (forall i b, nth_error to_load i = Some b ->
+       rget s' (rtp (2 * N.of_nat (E + i) + 1)) = Some (hword s (slot_addr p n i + 8)) /\
+       (bchi b <> Ext -> rget s' (rtp (2 * N.of_nat (E + i))) = Some (hword s (slot_addr p n i)))) /\
+    (forall k, (k < 2 * N.of_nat E)%N -> rget s' (rtp k) = rget s (rtp k)) /\
+    (forall a, ~ is_blk a -> hword s' a = hword s a) /\
+    (exists h', rget s' HEAP = Some h') /\ rget s' FREE = rget s FREE.
+Proof.
+  intros LD NE LE PL E n RP0 BP (h0 & RH) (f0 & RF) SH BND.
+  pose proof (represents_own s h0 f0 RH RF) as RP. set (h := own_heap s) in *.
+  assert (RPr : rget s (pos_reg Fst E) = Some p) by (rewrite pos_reg_rtp; cbn [tnum_n]; rewrite N.add_0_r; exact RP0).
+  pose proof (abs_heap_own F s h0 f0 RH RF) as EO. fold h in EO.
+  assert (LOW : forall r k, r = rtp k -> (k < 2 * N.of_nat E)%N -> forall L, (E <= L)%nat -> r <> pos_reg Snd L /\ r <> pos_reg Fst L).
+  { intros r k -> Hk L HL. unfold rtp, pos_reg. cbn [tnum_n]. change RESERVED with 4%N. lia. }
+  destruct (Z.eq_dec (hword s p) 0) as [E0|N0].
+  - (* the last reference: release *)
+    destruct (rv_load_one_block_release_refines im pos to_load existing lc cs lc' s h p NE LE LD PL RP RPr (is_blk_valid_block p BP) E0)
+      as (s' & X1 & X2 & X3).
+    set (w := words (a_release p h)) in *.
+    assert (WS : forall off, 0 < off < 64 -> w (p + off) = hword s (p + off)).
+    { intros off Ho. unfold w, a_release. cbn [words]. apply upd_other. lia. }
+    assert (NT : forall k, rtp k <> TEMP /\ rtp k <> HEAP) by (intros k; unfold rtp; change TEMP with 1%N; change HEAP with 2%N; lia).
+    exists s'. split; [exact X1|]. split; [|split; [|split; [|split; [|split]]]].
+    + eapply st_eqB_trans; [apply (represents_abs F _ _ X2)|].
+      eapply st_eqB_trans; [apply habs_release; exact BP|].
+      unfold Heap.load_object. cbn [abs_heap Heap.m abs_mem Heap.hdr]. rewrite E0. cbn [Z.eqb Heap.load_object_release].
+      apply release_st_eqB; [|exact BP]. apply st_eqB_sym. exact EO.
+    + intros i b Hi. destruct (NT (2 * N.of_nat (E + i) + 1)%N) as [T1 T2]. destruct (NT (2 * N.of_nat (E + i))%N) as [T3 T4].
+      rewrite !X3 by assumption. unfold n, slot_addr. clear X3 X2 X1 LD PL.
+      destruct to_load as [|b0 [|b1 [|b2 [|b3 r]]]]; cbn [List.length] in LE; try lia; try congruence;
+        cbn [rev app]; rewrite !lv_step; cbn [lv_spec List.length]; rewrite ?Nat.add_0_r;
+        change (3 - 1)%N with 2%N; change (2 - 1)%N with 1%N; change (1 - 1)%N with 0%N; fo;
+        destruct i as [|[|[|i]]]; cbn in Hi; try discriminate; try (destruct i; discriminate); inversion Hi; subst b;
+        cbn [Nat.sub Nat.add]; rewrite ?Nat.add_0_r;
+        (split; [|intros KE; rewrite ?(not_ext _ KE); cbn [negb andb]];
+         regdec; rewrite ?andb_false_r; rewrite ?WS by lia; f_equal; f_equal; lia).
+    + intros k Hk. destruct (NT k) as [T1 T2]. rewrite X3 by assumption. clear X3 X2 X1 LD PL.
+      pose proof (LOW (rtp k) k eq_refl Hk) as LW.
+      destruct to_load as [|b0 [|b1 [|b2 [|b3 r]]]]; cbn [List.length] in LE; try lia; try congruence;
+        cbn [rev app]; rewrite !lv_step; cbn [lv_spec List.length]; rewrite ?Nat.add_0_r;
+        repeat match goal with
+               | |- context [N.eqb (rtp k) (pos_reg ?t ?L)] =>
+                   destruct (N.eqb_spec (rtp k) (pos_reg t L)) as [EQ|_]; [exfalso; destruct (LW L ltac:(lia)); congruence|]
+               end; cbn [andb]; rewrite ?andb_false_r; reflexivity.
+    + intros a Ha. destruct X2 as (X2 & _). rewrite X2. unfold a_release. cbn [words]. apply upd_other. intros ->. contradiction.
+    + destruct X2 as (_ & X2 & _). eauto.
+    + destruct X2 as (_ & _ & X2). rewrite X2. unfold a_release. cbn [fp]. unfold h, own_heap, reg_or0. cbn [fp]. now rewrite RF.
+  - (* other references: decrement, then share the loaded pointers *)
+    destruct (SH N0) as (S0 & S1 & S2 & PZ & EZ).
+    set (h' := {| words := upd (words h) p (wrap (words h p - 1)); hp := hp h; fp := fp h |}).
+    assert (WS : forall off, 0 < off < 64 -> words h' (p + off) = hword s (p + off)).
+    { intros off Ho. unfold h'. cbn [words]. apply upd_other. lia. }
+    assert (WR : wrap (words h p - 1) = hword s p - 1).
+    { apply wrap_small. destruct (BND p BP). cbn [h own_heap words]. unfold min_int, max_int, two63 in *. lia. }
+    assert (B3 : sbound 3 h').
+    { intros x Hx. unfold h'. cbn [words]. unfold upd. destruct (Z.eqb_spec x p) as [->|NE']; [rewrite WR; destruct (BND p BP); lia|].
+      destruct (BND x Hx). cbn [h own_heap words]. lia. }
+    (* the abstract side *)
+    assert (DEC : st_eqB (habs F h') (Heap.dec p (abs_heap F s))).
+    { unfold Heap.dec. split; [reflexivity|]. split; [reflexivity|]. split; [reflexivity|].
+      intros x Hx. cbn [habs Heap.m words h']. rewrite WR.
+      rewrite (habs_upd_hdr F h p (hword s p - 1) x BP Hx). cbn [habs Heap.m abs_heap]. reflexivity. }
+    assert (LO : Heap.load_object 0 p (abs_heap F s) = Heap.share_list [hword s (p + 16); hword s (p + 32); hword s (p + 48)] (Heap.dec p (abs_heap F s))).
+    { unfold Heap.load_object. cbn [abs_heap Heap.m abs_mem Heap.hdr]. destruct (Z.eqb_spec (hword s p) 0); [contradiction|].
+      unfold Heap.load_object_share. cbn [Heap.share_walk]. rewrite HeapMore.dec_ps. reflexivity. }
+    assert (TGT : st_eqB (habs F (a_share (hword s (p + 16)) 1 (a_share (hword s (p + 32)) 1 (a_share (hword s (p + 48)) 1 h'))))
+                         (Heap.load_object 0 p (abs_heap F s))).
+    { rewrite LO. eapply st_eqB_trans; [apply share_chain; assumption|].
+      unfold Heap.share_list. cbn [fold_left]. apply share_st_eqB; [|exact S2]. apply share_st_eqB; [|exact S1]. apply share_st_eqB; [|exact S0]. exact DEC. }
+    assert (SV : forall v, (v = 0 \/ is_blk v) -> v = 0 \/ valid_addr v) by (intros v Hv; now apply ptr_valid).
+    (* the code *)
+    assert (OKL : lvs_ok (rev to_load) p 3 h' /\
+       snd (lvs_spec (rev to_load) E p 3 (rget s) h') =
+         a_share (hword s (p + 16)) 1 (a_share (hword s (p + 32)) 1 (a_share (hword s (p + 48)) 1 h'))).
+    { unfold n, slot_addr in PZ, EZ. clear LD PL TGT LO DEC.
+      destruct to_load as [|b0 [|b1 [|b2 [|b3 r]]]]; cbn [List.length] in LE, PZ, EZ; try lia; try congruence; cbn [rev app].
+      - pose proof (PZ O ltac:(lia)) as Z0. pose proof (PZ 1%nat ltac:(lia)) as Z1. cbv [Z.of_nat Nat.add Nat.sub Pos.of_succ_nat Pos.succ Z.mul Pos.mul Pos.add] in Z0, Z1.
+        pose proof (EZ O b0 eq_refl) as X0. cbv [Z.of_nat Nat.add Nat.sub Pos.of_succ_nat Pos.succ Z.mul Pos.mul Pos.add] in X0.
+        rewrite !lvs_ok_step, !lvs_step_snd. cbn [lvs_ok lvs_spec snd]. change (3 - 1)%N with 2%N. fo. rewrite !WS by lia.
+        rewrite (share_if b0) by (intros IE; apply X0; now apply is_ext_true).
+        rewrite Z0, Z1. split; [split; [intros _; apply SV; exact S2|exact I]|reflexivity].
+      - pose proof (PZ O ltac:(lia)) as Z0. cbv [Z.of_nat Nat.add Nat.sub Pos.of_succ_nat Pos.succ Z.mul Pos.mul Pos.add] in Z0.
+        pose proof (EZ O b0 eq_refl) as X0. pose proof (EZ 1%nat b1 eq_refl) as X1. cbv [Z.of_nat Nat.add Nat.sub Pos.of_succ_nat Pos.succ Z.mul Pos.mul Pos.add] in X0, X1.
+        rewrite !lvs_ok_step, !lvs_step_snd. cbn [lvs_ok lvs_spec snd]. change (3 - 1)%N with 2%N. change (2 - 1)%N with 1%N. fo. rewrite !WS by lia.
+        rewrite (share_if b1) by (intros IE; apply X1; now apply is_ext_true).
+        rewrite (a_share_slots _ _ _ p 32 S2 BP) by lia. rewrite !WS by lia.
+        rewrite (share_if b0) by (intros IE; apply X0; now apply is_ext_true).
+        rewrite Z0. split; [split; [intros _; apply SV; exact S2|split; [intros _; apply SV; exact S1|exact I]]|reflexivity].
+      - pose proof (EZ O b0 eq_refl) as X0. pose proof (EZ 1%nat b1 eq_refl) as X1. pose proof (EZ 2%nat b2 eq_refl) as X2.
+        cbv [Z.of_nat Nat.add Nat.sub Pos.of_succ_nat Pos.succ Z.mul Pos.mul Pos.add] in X0, X1, X2.
+        rewrite !lvs_ok_step, !lvs_step_snd. cbn [lvs_ok lvs_spec snd]. change (3 - 1)%N with 2%N. change (2 - 1)%N with 1%N. change (1 - 1)%N with 0%N. fo. rewrite !WS by lia.
+        rewrite (share_if b2) by (intros IE; apply X2; now apply is_ext_true).
+        rewrite (a_share_slots _ _ _ p 32 S2 BP) by lia. rewrite !WS by lia.
+        rewrite (share_if b1) by (intros IE; apply X1; now apply is_ext_true).
+        rewrite (a_share_slots _ _ _ p 16 S1 BP) by lia. rewrite (a_share_slots _ _ _ p 16 S2 BP) by lia. rewrite !WS by lia.
+        rewrite (share_if b0) by (intros IE; apply X0; now apply is_ext_true).
+        split; [split; [intros _; apply SV; exact S2|split; [intros _; apply SV; exact S1|split; [intros _; apply SV; exact S0|exact I]]]|reflexivity]. }
+    destruct OKL as (OK & HC).
+    assert (N0' : words h p <> 0) by exact N0.
+    destruct (rv_load_one_block_share_refines im pos to_load existing lc cs lc' s h p NE LE LD PL RP RPr (is_blk_valid_block p BP) N0' OK)
+      as (s' & X1 & X2 & X3).
+    assert (X2' : represents s' (a_share (hword s (p + 16)) 1 (a_share (hword s (p + 32)) 1 (a_share (hword s (p + 48)) 1 h')))) by (rewrite <- HC; exact X2).
+    clear X2. rename X2' into X2.
+    assert (X3' : forall r, r <> TEMP -> rget s' r = fst (lvs_spec (rev to_load) E p 3 (rget s) h') r) by exact X3.
+    clear X3. rename X3' into X3.
+    assert (NT : forall k, rtp k <> TEMP) by (intros k; unfold rtp; change TEMP with 1%N; lia).
+    (* the field words seen by the register specification: only headers change along the shares *)
+    assert (WSH : forall hh off, 0 < off < 64 ->
+              (hh = h' \/ hh = a_share (hword s (p + 48)) 1 h' \/ hh = a_share (hword s (p + 32)) 1 (a_share (hword s (p + 48)) 1 h')) ->
+              words hh (p + off) = hword s (p + off)).
+    { intros hh off Ho [->|[->| ->]]; rewrite ?(a_share_slots _ _ _ p off S1 BP Ho), ?(a_share_slots _ _ _ p off S2 BP Ho); apply WS; exact Ho. }
+    exists s'. split; [exact X1|]. split; [|split; [|split; [|split; [|split]]]].
+    + eapply st_eqB_trans; [apply (represents_abs F _ _ X2)|exact TGT].
+    + intros i b Hi. rewrite !X3 by apply NT. unfold n, slot_addr in *. clear X3 X2 X1 LD PL OK HC TGT LO DEC.
+      destruct to_load as [|b0 [|b1 [|b2 [|b3 r]]]]; cbn [List.length] in LE, PZ, EZ; try lia; try congruence; cbn [rev app].
+      * pose proof (EZ O b0 eq_refl) as X0. cbv [Z.of_nat Nat.add Nat.sub Pos.of_succ_nat Pos.succ Z.mul Pos.mul Pos.add] in X0.
+        rewrite !lvs_step_fst. cbn [lvs_spec fst List.length]. rewrite ?Nat.add_0_r. change (3 - 1)%N with 2%N. fo.
+        destruct i as [|[|i]]; cbn in Hi; try discriminate; inversion Hi; subst b. cbn [Nat.sub Nat.add]. rewrite ?Nat.add_0_r.
+        split; [|intros KE; rewrite ?(not_ext _ KE); cbn [negb andb]];
+          regdec; rewrite ?andb_false_r; rewrite ?WS by lia; f_equal; f_equal; lia.
+      * pose proof (EZ O b0 eq_refl) as X0. pose proof (EZ 1%nat b1 eq_refl) as X1'. cbv [Z.of_nat Nat.add Nat.sub Pos.of_succ_nat Pos.succ Z.mul Pos.mul Pos.add] in X0, X1'.
+        rewrite !lvs_step_fst. cbn [lvs_spec fst List.length]. rewrite ?Nat.add_0_r. change (3 - 1)%N with 2%N. change (2 - 1)%N with 1%N. fo.
+        rewrite !WS by lia. rewrite (share_if b1) by (intros IE; apply X1'; now apply is_ext_true).
+        rewrite ?(WSH _ 32 ltac:(lia) (or_intror (or_introl eq_refl))), ?(WSH _ 40 ltac:(lia) (or_intror (or_introl eq_refl))).
+        destruct i as [|[|[|i]]]; cbn in Hi; try discriminate; inversion Hi; subst b; cbn [Nat.sub Nat.add]; rewrite ?Nat.add_0_r;
+          (split; [|intros KE; rewrite ?(not_ext _ KE); cbn [negb andb]];
+           regdec; rewrite ?andb_false_r; f_equal; f_equal; lia).
+      * pose proof (EZ O b0 eq_refl) as X0. pose proof (EZ 1%nat b1 eq_refl) as X1'. pose proof (EZ 2%nat b2 eq_refl) as X2'.
+        cbv [Z.of_nat Nat.add Nat.sub Pos.of_succ_nat Pos.succ Z.mul Pos.mul Pos.add] in X0, X1', X2'.
+        rewrite !lvs_step_fst. cbn [lvs_spec fst List.length]. rewrite ?Nat.add_0_r. change (3 - 1)%N with 2%N. change (2 - 1)%N with 1%N. change (1 - 1)%N with 0%N. fo.
+        rewrite !WS by lia. rewrite (share_if b2) by (intros IE; apply X2'; now apply is_ext_true).
+        rewrite ?(WSH _ 32 ltac:(lia) (or_intror (or_introl eq_refl))), ?(WSH _ 40 ltac:(lia) (or_intror (or_introl eq_refl))).
+        rewrite (share_if b1) by (intros IE; apply X1'; now apply is_ext_true).
+        rewrite ?(WSH _ 16 ltac:(lia) (or_intror (or_intror eq_refl))), ?(WSH _ 24 ltac:(lia) (or_intror (or_intror eq_refl))).
+        destruct i as [|[|[|i]]]; cbn in Hi; try discriminate; try (destruct i; discriminate); inversion Hi; subst b; cbn [Nat.sub Nat.add]; rewrite ?Nat.add_0_r;
+          (split; [|intros KE; rewrite ?(not_ext _ KE); cbn [negb andb]];
+           regdec; rewrite ?andb_false_r; f_equal; f_equal; lia).
+    + intros k Hk. rewrite X3 by apply NT. clear X3 X2 X1 LD PL OK HC TGT LO DEC.
+      pose proof (LOW (rtp k) k eq_refl Hk) as LW.
+      destruct to_load as [|b0 [|b1 [|b2 [|b3 r]]]]; cbn [List.length] in LE; try lia; try congruence;
+        cbn [rev app]; rewrite !lvs_step_fst; cbn [lvs_spec fst List.length]; rewrite ?Nat.add_0_r;
+        repeat match goal with
+               | |- context [N.eqb (rtp k) (pos_reg ?t ?L)] =>
+                   destruct (N.eqb_spec (rtp k) (pos_reg t L)) as [EQ|_]; [exfalso; destruct (LW L ltac:(lia)); congruence|]
+               end; cbn [andb]; rewrite ?andb_false_r; reflexivity.
+    + intros a Ha. destruct X2 as (X2 & _). rewrite X2. rewrite !a_share_nonblk by assumption.
+      unfold h'. cbn [words]. apply upd_other. intros ->. contradiction.
+    + destruct X2 as (_ & X2 & _). eauto.
+    + destruct X2 as (_ & _ & X2). rewrite X2. rewrite !fp_a_share. unfold h', h, own_heap, reg_or0. cbn [fp]. now rewrite RF.
+Qed.
+End Load.
